@@ -3,6 +3,10 @@ minimised past disagreements."""
 
 CORPUS = {
     "C07": [
+        # a thread about to try must not be blocked by the acquisition (F9a, repaired)
+        "cfg m=1 | T0: spawn 1; lock 0; join 1; unlock 0 | T1: trylock 0; ifeq 1 v:1 1; unlock 0",
+        "cfg l=1 | T0: spawn 1; wr 0; join 1; unwr 0 | T1: tryrd 0; ifeq 1 v:1 1; unrd 0",
+        "cfg l=1 | T0: spawn 1; rd 0; join 1; unrd 0 | T1: trywr 0; ifeq 1 v:1 1; unwr 0",
         "cfg m=1 | T0: spawn 1; lock 0; unpark 1; join 1; unlock 0 | T1: lock 0; unlock 0",
         "cfg l=1 | T0: spawn 1; wr 0; unpark 1; join 1; unwr 0 | T1: rd 0; unrd 0",
         # a failed try against a held lock must leave the lock held (same thread and another thread)
@@ -37,6 +41,7 @@ CORPUS = {
         "cfg q=1 c=2 | T0: spawn 1; spawn 2; recv 0; ifeq 1 v:1 1; crd 0; ifeq 2 v:2 1; crd 1; recv 0; join 1; join 2; droprx 0 | T1: cwr 0 5; send 0 1 | T2: cwr 1 6; send 0 2",
     ],
     "C04": [
+        "cfg c=1 | T0: spawn 1; cwr 0 1; unpark 1; join 1 | T1: crd 0",
         # the same for the race detector: the second queued message's clock
         "cfg q=1 c=1 | T0: spawn 1; recv 0; recv 0; crd 0; join 1; droprx 0 | T1: send 0 1; cwr 0 5; send 0 2",
         # two overlapping read sections; the first reader leaves while the second is inside; the writer is ordered
@@ -79,6 +84,12 @@ CORPUS = {
         "cfg x=2 | T0: spawn 1; st 0 1 rlx; st 1 1 rlx; join 1; fence sc | T1: fence sc; ld 1 rlx; ld 0 rlx",
     ],
     "C08": [
+        # an unpark orders nothing until a park consumes it (F17, repaired); a stored unpark is not a condvar
+        # notification (F15, repaired)
+        "cfg c=1 | T0: spawn 1; cwr 0 1; unpark 1; join 1 | T1: crd 0",
+        "cfg c=1 | T0: spawn 1; cwr 0 1; unpark 1; join 1 | T1: park; crd 0",
+        "cfg c=1 m=1 v=1 | T0: spawn 1; lock 0; cwr 0 1; unlock 0; cvone 0; join 1 | T1: unpark 1; lock 0; cvwait 0 0; crd 0; unlock 0",
+        "cfg m=1 v=1 | T0: spawn 1; spawn 2; lock 0; cvwait 0 0; unlock 0; join 1; join 2 | T1: unpark 0; lock 0; cvone 0; unlock 0 | T2: lock 0; cvwait 0 0; unlock 0",
         # unpark must wake only a thread that is blocked in park, and its token must survive blocking on
         # something else (F5 / F6 / F18, repaired)
         "cfg  | T0: spawn 1; join 1 | T1: unpark 0",
@@ -106,6 +117,8 @@ CORPUS = {
         "cfg m=1 c=1 v=1 | T0: spawn 1; spawn 2; lock 0; cwr 0 1; unlock 0; cvone 0; cvone 0; join 1; join 2 | T1: lock 0; crd 0; ifeq 1 v:0 1; cvwait 0 0; unlock 0 | T2: lock 0; crd 0; ifeq 1 v:0 1; cvwait 0 0; unlock 0",
     ],
     "C05": [
+        "cfg m=1 | T0: spawn 1; lock 0; join 1; unlock 0 | T1: trylock 0; ifeq 1 v:1 1; unlock 0",
+        "cfg c=1 | T0: spawn 1; cwr 0 1; unpark 1; park; join 1 | T1: cwr 0 2",
         # unpark must wake only a thread that is blocked in park, and its token must survive blocking on
         # something else (F5 / F6 / F18, repaired)
         "cfg  | T0: spawn 1; join 1 | T1: unpark 0",
